@@ -20,6 +20,8 @@ type CRLRevocationChecker struct {
 	logger          *zap.Logger
 	crlUpdateTicker *time.Ticker
 	crlUpdateStop   chan struct{}
+	// time the last crl update of this checker finished, guarded by crlUpdateMutex
+	lastCrlUpdateFinishTime time.Time
 }
 
 func (c *CRLRevocationChecker) IsRevoked(clientCertificate *x509.Certificate, verifiedChains [][]*x509.Certificate) (*core.RevocationStatus, error) {
@@ -170,14 +172,14 @@ func (c *CRLRevocationChecker) updateCRLs(forceUpdate bool) {
 	}
 	defer func() {
 		// mark when crl update was last finished
-		lastCrlUpdateFinishTime = time.Now()
+		c.lastCrlUpdateFinishTime = time.Now()
 	}()
 
 	c.crlRepository.UpdateCRLs()
 }
 
 func (c *CRLRevocationChecker) updateWasRecentlyFinished() bool {
-	return !lastCrlUpdateFinishTime.IsZero() && (time.Since(lastCrlUpdateFinishTime) < c.crlConfig.UpdateIntervalParsed/2)
+	return !c.lastCrlUpdateFinishTime.IsZero() && (time.Since(c.lastCrlUpdateFinishTime) < c.crlConfig.UpdateIntervalParsed/2)
 }
 
 func RegisterCRLWorkDirUsage(crlConfig *config.CRLConfig) error {
@@ -197,8 +199,7 @@ func DeregisterCRLWorkDirUsage(crlConfig *config.CRLConfig) {
 }
 
 var (
-	workDirsInUse           = make(map[string]int)
-	workDirInUseMutex       sync.Mutex
-	crlUpdateMutex          sync.Mutex
-	lastCrlUpdateFinishTime time.Time
+	workDirsInUse     = make(map[string]int)
+	workDirInUseMutex sync.Mutex
+	crlUpdateMutex    sync.Mutex
 )
